@@ -1418,7 +1418,7 @@ class DSAPriv(PrivKey, DSAPub):
         else:
             self.encbytes = packet
 
-        if self.s2k.usage in [0, 255]:
+        if self.s2k.usage == 0:
             self.chksum = packet[:2]
             del packet[:2]
 
@@ -1459,7 +1459,7 @@ class ElGPriv(PrivKey, ElGPub):
         else:
             self.encbytes = packet
 
-        if self.s2k.usage in [0, 255]:
+        if self.s2k.usage == 0:
             self.chksum = packet[:2]
             del packet[:2]
 
